@@ -1,0 +1,199 @@
+//go:build verif
+// +build verif
+
+package leveldb
+
+import (
+	"sync"
+	"sync/atomic"
+
+	"github.com/syndtr/goleveldb/leveldb/storage"
+)
+
+// Export of the two loops that drive table compactions (read-only, add-only, kept per storage like verif_pick.go;
+// recording is off until VerifPickExport(true)):
+//   - DB.CompactRange -> tableRangeCompaction(level = -1): the passes of the retry loop (m of each pass, the
+//     compactions of the pass with the version each was built on) and the version / compaction pointers before
+//     and after the loop;
+//   - session.pickCompaction: what the background loop chose (version, cLevel, cScore, cSeek, the compaction
+//     pointers, the seed table, the type);
+//   - VerifScore: cLevel / cScore / needCompaction of the current version.
+
+// VerifRangeComp is one compaction of a range pass.
+type VerifRangeComp struct {
+	Level   int
+	T0, T1  []int64      // inputs after expand
+	Version []VerifTable // the version the compaction was built on
+	levels  []tFiles
+}
+
+// VerifRangePass is one pass of "Retry until nothing to compact".
+type VerifRangePass struct {
+	M     int
+	Comps []VerifRangeComp
+}
+
+// VerifRange is one complete run of the retry loop.
+type VerifRange struct {
+	Umin, Umax   []byte
+	V0, V1       []VerifTable
+	Ptrs0, Ptrs1 [][]byte // s.stCompPtrs (nil = no pointer for the level)
+	Passes       []VerifRangePass
+	Done         bool
+}
+
+// VerifAuto is one choice of session.pickCompaction.
+type VerifAuto struct {
+	Version     []VerifTable
+	CLevel      int
+	CScore      float64
+	Seek        bool
+	SeekLevel   int
+	SeekNum     int64
+	Ptrs        [][]byte
+	SourceLevel int
+	Seed        []int64
+	Typ         int // 0 level-0, 1 non-level-0, 2 seek
+}
+
+type verifRangeState struct {
+	mu   sync.Mutex
+	cur  *VerifRange
+	done *VerifRange
+	auto *VerifAuto
+}
+
+var verifRangeStates sync.Map // storage.Storage -> *verifRangeState
+
+func verifRangeStateOf(s *session) *verifRangeState {
+	if atomic.LoadInt32(&verifPickOn) == 0 || s == nil || s.stor == nil {
+		return nil
+	}
+	key := s.stor.Storage
+	if x, ok := verifRangeStates.Load(key); ok {
+		return x.(*verifRangeState)
+	}
+	x, _ := verifRangeStates.LoadOrStore(key, &verifRangeState{})
+	return x.(*verifRangeState)
+}
+
+func verifPtrs(s *session) [][]byte {
+	out := make([][]byte, len(s.stCompPtrs))
+	for i, k := range s.stCompPtrs {
+		if k != nil {
+			out[i] = append([]byte{}, k...)
+		}
+	}
+	return out
+}
+
+// verifRangeEv is called by tableRangeCompaction (level = -1): kind 0 = the loop starts, 1 = m of a new pass,
+// 2 = a compaction of the pass is about to run, 3 = the loop is over.
+func verifRangeEv(s *session, kind, arg int, umin, umax []byte, c *compaction) {
+	st := verifRangeStateOf(s)
+	if st == nil {
+		return
+	}
+	st.mu.Lock()
+	defer st.mu.Unlock()
+	switch kind {
+	case 0:
+		v := s.version()
+		st.cur = &VerifRange{Umin: umin, Umax: umax, V0: verifDumpLevels(v.levels), Ptrs0: verifPtrs(s)}
+		if st.cur.V0 == nil {
+			st.cur.V0 = []VerifTable{}
+		}
+		v.release()
+		st.auto = nil
+	case 1:
+		if st.cur != nil {
+			st.cur.Passes = append(st.cur.Passes, VerifRangePass{M: arg})
+		}
+	case 2:
+		if st.cur != nil && len(st.cur.Passes) > 0 && c != nil {
+			p := &st.cur.Passes[len(st.cur.Passes)-1]
+			p.Comps = append(p.Comps, VerifRangeComp{Level: arg, T0: verifNums(c.levels[0]), T1: verifNums(c.levels[1]), levels: c.v.levels})
+		}
+	case 3:
+		if st.cur != nil {
+			v := s.version()
+			st.cur.V1 = verifDumpLevels(v.levels)
+			if st.cur.V1 == nil {
+				st.cur.V1 = []VerifTable{}
+			}
+			v.release()
+			st.cur.Ptrs1 = verifPtrs(s)
+			st.cur.Done = true
+			st.done, st.cur = st.cur, nil
+		}
+	}
+}
+
+// VerifTakeRange returns and clears the last completed run of the retry loop on the storage (nil if none).
+func VerifTakeRange(stor storage.Storage) *VerifRange {
+	x, ok := verifRangeStates.Load(stor)
+	if !ok {
+		return nil
+	}
+	st := x.(*verifRangeState)
+	st.mu.Lock()
+	r := st.done
+	st.done = nil
+	st.mu.Unlock()
+	if r == nil {
+		return nil
+	}
+	for i := range r.Passes {
+		for j := range r.Passes[i].Comps {
+			c := &r.Passes[i].Comps[j]
+			c.Version = verifDumpLevels(c.levels)
+			c.levels = nil
+		}
+	}
+	return r
+}
+
+// verifAutoPick is called by session.pickCompaction right before newCompaction.
+func verifAutoPick(s *session, v *version, sourceLevel int, t0 tFiles, typ int) {
+	st := verifRangeStateOf(s)
+	if st == nil {
+		return
+	}
+	a := &VerifAuto{Version: verifDumpLevels(v.levels), CLevel: v.cLevel, CScore: v.cScore, Ptrs: verifPtrs(s),
+		SourceLevel: sourceLevel, Seed: verifNums(t0), Typ: typ - level0Compaction}
+	if p := atomic.LoadPointer(&v.cSeek); p != nil {
+		ts := (*tSet)(p)
+		a.Seek, a.SeekLevel, a.SeekNum = true, ts.level, ts.table.fd.Num
+	}
+	st.mu.Lock()
+	st.auto = a
+	st.mu.Unlock()
+}
+
+// VerifTakeAuto returns and clears the last choice of pickCompaction on the storage (nil if none).
+func VerifTakeAuto(stor storage.Storage) *VerifAuto {
+	x, ok := verifRangeStates.Load(stor)
+	if !ok {
+		return nil
+	}
+	st := x.(*verifRangeState)
+	st.mu.Lock()
+	a := st.auto
+	st.auto = nil
+	st.mu.Unlock()
+	return a
+}
+
+// VerifForgetRange drops what is kept for the storage.
+func VerifForgetRange(stor storage.Storage) { verifRangeStates.Delete(stor) }
+
+// VerifScore pins the current version and returns it with cLevel, cScore, whether cSeek is set and needCompaction.
+func VerifScore(db *DB) (ver []VerifTable, cLevel int, cScore float64, seek bool, need bool) {
+	v := db.s.version()
+	defer v.release()
+	ver = verifDumpLevels(v.levels)
+	if ver == nil {
+		ver = []VerifTable{}
+	}
+	return ver, v.cLevel, v.cScore, atomic.LoadPointer(&v.cSeek) != nil, v.needCompaction()
+}
